@@ -521,6 +521,20 @@ def model_truncate(hists):
     return out, cut, ml
 
 
+def san_summary(err):
+    m = re.search(r"(ERROR: \w+Sanitizer: [^\n]*|SUMMARY: [^\n]*|runtime error: [^\n]*|terminate called[^\n]*)", err or "")
+    return m.group(1)[:300] if m else (err or "")[-300:].replace("\n", " ")
+
+
+def assess(h, il, rc, err):
+    """judge one history from the implementation's output: (step, message) or None"""
+    hh = list(h) + ["end"]
+    bad = oracle(hh, il)            # zip() stops at the last line printed
+    if bad is None and len(il) != len(hh):
+        bad = (len(il), "implementation stopped at step %d (%s): rc=%s %s" % (len(il), hh[len(il)] if len(il) < len(hh) else "?", rc, san_summary(err)))
+    return bad
+
+
 def work(args):
     """one chunk: model + implementation + oracle.  Top-level so that it can run in a process pool."""
     exe, hists = args
@@ -537,12 +551,11 @@ def work(args):
             stats["ops"][c] = stats["ops"].get(c, 0) + 1
             s = l.split(" |")[0]
             stats["status"][s] = stats["status"].get(s, 0) + 1
-        if len(il) != len(hh):
-            res.append((h, "stopped", len(il), "implementation stopped after %d of %d steps: rc=%s %s" % (len(il), len(hh), rc, err[-1800:])))
-            break
-        bad = oracle(hh, il)
+        bad = assess(h, il, rc, err)
         if bad is not None:
             res.append((h, "oracle", bad[0], bad[1]))
+            if len(il) != len(hh):
+                break                 # the process died: the rest of the chunk was not run
         elif il != ml:
             res.append((h, "diff", vcheck.first_diff(il, ml), ""))
         else:
@@ -567,11 +580,9 @@ def shrink(exe, h, want_oracle):
         if any(l.startswith("fault") for l in ml):
             return False                      # stale soft link used: not a legal history
         il, rc, err = run_one(exe, sub)
-        if len(il) != len(sub) + 1:
-            return want_oracle
         if want_oracle:
-            return oracle(list(sub) + ["end"], il) is not None
-        return il != ml
+            return assess(sub, il, rc, err) is not None
+        return len(il) == len(sub) + 1 and il != ml
     return vcheck.ddmin(list(h), fails, max_tests=250)
 
 
@@ -580,16 +591,16 @@ def judge(ctx, exe, results, label):
     for h, kind, k, msg in results:
         nontriv = sum(1 for op in h if op.split()[0] in ASSIGN_OPS + ("link", "linksl", "sl", "cp", "cpc", "cpm", "clr", "rs", "rsi", "del")) >= 2
         ctx.count_case(tuple(h), nontrivial=nontriv, sample={"history": h[:10], "result": kind})
-        if kind in ("oracle", "stopped"):
+        if kind == "oracle":
             nbad += 1
             if len([v for v in ctx.violations if not v[2]]) < 2 and nbad <= 2:
                 shr = shrink(exe, h, True)
                 il, rc, err = run_one(exe, shr)
-                bad = oracle(list(shr) + ["end"], il) if len(il) == len(shr) + 1 else (len(il), "implementation stopped (sanitizer report or crash): rc=%s %s" % (rc, err[-1500:]))
+                bad = assess(shr, il, rc, err)
                 m2 = bad[1] if bad else msg
                 ctx.violation("%s [%s]" % (m2.split("\n")[0][:300], label),
                               {"kind": "oracle", "history": shr, "step": bad[0] if bad else k, "message": m2, "impl": il,
-                               "original_length": len(h), "build": label})
+                               "sanitizer": san_summary(err) if rc else "", "original_length": len(h), "build": label})
         elif kind == "diff":
             ctx.cov["disagreements_checked"] += 1
             if len(ctx.pending) < 2:
